@@ -140,6 +140,22 @@ struct WireEngine : Engine {
             else { if (ok) ++inspected_faulted; else ++rejected; }
             sig = mix64(sig, fnv1a(descs[i]) ^ fnv1a(faults[i].substr(0, faults[i].find_first_of("0123456789"))));
         }
+        // results must not be computed from memory nobody initialised: every frame is constructed and inspected twice, the two executions
+        // differing only in the byte the allocator fills fresh heap memory with; outcome, sizes, every arithmetic / string accessor value and
+        // the number of accessors that ended in a libtins exception must agree
+        for (size_t i = 0; i < frames.size(); ++i) {
+            uint64_t dg[2] = { 0, 0 };
+            for (int pass = 0; pass < 2; ++pass) {
+                ledger::fill = pass ? 0x5a : 0xa5; inspect::digest() = 0xC01;
+                try { ledger::Scope sc; std::unique_ptr<PDU> q(construct(dlt, frames[i]));
+                    if (!q) inspect::fold(1); else { inspect::Counters c2; inspect::fold(q->size()); for (const PDU* l = q.get(); l; l = l->inner_pdu()) { inspect::fold((uint64_t)l->pdu_type()); inspect::fold(l->header_size()); inspect::fold(l->trailer_size()); }
+                        try { inspect::packet(*q, c2); } catch (std::exception&) { inspect::fold(3); } inspect::fold(c2.calls); inspect::fold(c2.tins_exc); inspect::fold(c2.app_decodes); } }
+                catch (malformed_packet&) { inspect::fold(2); } catch (std::exception&) { inspect::fold(4); }
+                ledger::fill = -1; dg[pass] = inspect::digest();
+            }
+            st.inc("chk.uninitialised_memory_differential");
+            if (dg[0] != dg[1]) return Verdict::bad("wire:result-depends-on-uninitialised-memory", fmt("frame #%zu (%s): constructing and inspecting it gives different results when fresh heap memory is filled with 0xa5 or with 0x5a", i, descs[i].c_str()));
+        }
         for (auto& fk : simdisk::fired) st.inc(fk.first, fk.second);
         st.inc("chk.frame_budget", budget_checks); st.inc("chk.accepted_packet", accepted); st.inc("probe.faulted_frame_still_parses", inspected_faulted); st.inc("probe.faulted_frame_rejected_as_malformed", rejected); st.inc("chk.accessor_calls", ic.calls); st.inc("probe.accessor_libtins_exceptions", ic.tins_exc); st.inc("probe.layers_inspected", ic.layers); st.inc("probe.app_payload_decodes", ic.app_decodes);
         st.ctr["probe.max_kilo_blocks_per_packet"] = std::max(st.ctr["probe.max_kilo_blocks_per_packet"], max_ratio);
